@@ -55,6 +55,7 @@ type FD struct {
 	std    int // >0 for the standard streams
 	obj    int32
 	offset int
+	dirPath string // non-empty: the descriptor is an open directory
 }
 
 func newEnv() *Env {
@@ -722,6 +723,16 @@ func (e *Engine) addEnvIntrinsics() {
 			c.s.choices = append(c.s.choices, ChoiceRec{"openfault", k})
 			fail = k == 1
 		}
+		if ps, ok := path.(string); ok && !fail && env.dirExists(strings.TrimSuffix(ps, "/")) {
+			// an existing directory, opened for reading its entries
+			if flags&0x3 != 0 || flags&0x40 != 0 {
+				return Tuple{Ptr{}, c.s.newError("open " + ps + ": is a directory")}
+			}
+			fd := &FD{path: ps, flags: flags, dirPath: strings.TrimSuffix(ps, "/"), nodeIx: -1}
+			fd.obj = c.s.allocMem([]Value{uint64(len(env.fds))})
+			env.fds = append(env.fds, fd)
+			return Tuple{Ptr{ID: fd.obj}, Iface{}}
+		}
 		dir, name := splitPath(c, path)
 		ix := -1
 		if !fail && !env.dirExists(dir) {
@@ -770,6 +781,9 @@ func (e *Engine) addEnvIntrinsics() {
 		}
 		if fd.closed {
 			return Tuple{uint64(0), c.s.newError("write " + fd.path + ": file already closed")}
+		}
+		if fd.dirPath != "" {
+			return Tuple{uint64(0), c.s.newError("write " + fd.path + ": bad file descriptor")}
 		}
 		env := c.s.env
 		if env.faultWriteAll && fd.std == 0 {
@@ -884,6 +898,58 @@ func (e *Engine) addEnvIntrinsics() {
 		id := c.s.allocMem(slots)
 		return Slice{ID: id, Len: int32(len(m)), Cap: int32(len(m))}
 	}
+	// (*os.File).ReadDir / Readdir / Readdirnames on an open directory (all entries at once)
+	dirFD := func(c *callCtx) (*FD, Value) {
+		fd := fileOf(c)
+		if fd == nil {
+			return nil, c.s.newError("invalid argument")
+		}
+		if fd.closed {
+			return nil, c.s.newError("readdir " + fd.path + ": file already closed")
+		}
+		if fd.dirPath == "" {
+			return nil, c.s.newError("readdirent " + fd.path + ": not a directory")
+		}
+		if n, ok := c.args[1].(uint64); !ok || int64(n) > 0 {
+			c.s.unsupported("reading a directory in batches (n > 0)")
+		}
+		if !c.s.env.dirExists(fd.dirPath) {
+			return nil, c.s.newError("readdirent " + fd.path + ": no such file or directory")
+		}
+		return fd, nil
+	}
+	for _, m := range []string{"ReadDir", "Readdir"} {
+		in["(*os.File)."+m] = func(c *callCtx) Value {
+			fd, err := dirFD(c)
+			if fd == nil {
+				return Tuple{Slice{}, err}
+			}
+			cc := *c
+			cc.args = []Value{fd.dirPath}
+			return in["os.ReadDir"](&cc) // the entry objects implement both fs.DirEntry and fs.FileInfo
+		}
+	}
+	in["(*os.File).Readdirnames"] = func(c *callCtx) Value {
+		fd, err := dirFD(c)
+		if fd == nil {
+			return Tuple{Slice{}, err}
+		}
+		var slots []Value
+		for _, f := range c.s.env.files {
+			if !f.removed && f.dir == fd.dirPath {
+				slots = append(slots, f.name)
+			}
+		}
+		id := c.s.allocMem(slots)
+		return Tuple{Slice{ID: id, Len: int32(len(slots)), Cap: int32(len(slots))}, Iface{}}
+	}
+	in["(*os.File).Name"] = func(c *callCtx) Value {
+		if fd := fileOf(c); fd != nil {
+			return fd.path
+		}
+		c.s.unsupported("Name of a file outside the file-system model")
+		return ""
+	}
 	in["os.ReadDir"] = func(c *callCtx) Value {
 		dir := strings.TrimSuffix(c.concreteStr(0), "/")
 		env := c.s.env
@@ -996,7 +1062,7 @@ func (e *Engine) addEnvIntrinsics() {
 		in[p+"vFSOpenFDs"] = func(c *callCtx) Value {
 			n := 0
 			for _, fd := range c.s.env.fds {
-				if fd.std == 0 && !fd.closed {
+				if fd.std == 0 && !fd.closed && fd.dirPath == "" {
 					n++
 				}
 			}
